@@ -194,8 +194,16 @@ def r2_4(ctx):
     ctx.check("Iterator::enumerate" in it and "slice::iter" in it and not [m for m in it if m in ("Iterator::skip", "Iterator::take", "Iterator::filter", "Iterator::rev")],
               "all-bytes", f.where(), "all bytes are visited in order")
     r = peel(o.local(0))
-    lines = f.local_by_name("lines")
-    ctx.check(bool(lines) and f.canon_place({"l": 0, "p": []})["l"] in (0, lines[0]) and all(f.arg_name(t["args"][0]) == "lines" for _, t in pushes), "returns-pushed", f.where(),
+    # the returned Vec is bound by role: the local moved into the return place; every push goes to it
+    ret = None
+    for d in f.defs.get(0, []):
+        if d[2] == "assign" and d[3]["k"] == "use":
+            pl0 = d[3]["op"].get("move") or d[3]["op"].get("copy")
+            if pl0 is not None and not pl0["p"]:
+                ret = f.canon_place(pl0)["l"]
+    from .c16 import mut_calls
+    pushed_to_ret = {mb for mb, mt in mut_calls(f, ret)} if ret is not None else set()
+    ctx.check(ret is not None and all(pb in pushed_to_ret for pb, _ in pushes), "returns-pushed", f.where(),
               "the returned Vec is the one the slices were pushed to")
 
 
